@@ -62,6 +62,10 @@ func VerifHarness_C01_rt_multi() {
 	if rt.Param("OPT") == 1 {
 		p = verifProducerSym()
 	}
+	if rt.Param("OPT") == 2 {
+		// the one non-default attribute order whose parent-id encoding the consumer assumes (see KF-B)
+		p = NewProducerWithOptions(cfg.WithNoZstd(), cfg.WithOrderAttrs32By(cfg.OrderAttrs32ByKeyValueParentId))
+	}
 	for b := 0; b < rt.Param("BATCHES"); b++ {
 		td := ptrace.NewTraces()
 		ss := td.ResourceSpans().AppendEmpty().ScopeSpans().AppendEmpty()
@@ -125,6 +129,9 @@ func VerifHarness_C03_rt_multi() {
 	p, c := verifProducer(), verifConsumer()
 	verifAhead = rt.Param("AHEAD") == 1
 	defer verifFlushAhead()
+	if rt.Param("OPT") == 2 {
+		p = NewProducerWithOptions(cfg.WithNoZstd(), cfg.WithOrderAttrs32By(cfg.OrderAttrs32ByKeyValueParentId))
+	}
 	for b := 0; b < rt.Param("BATCHES"); b++ {
 		md := pmetric.NewMetrics()
 		m := md.ResourceMetrics().AppendEmpty().ScopeMetrics().AppendEmpty().Metrics().AppendEmpty()
